@@ -55,6 +55,11 @@ type propSpec struct {
 	// hang/deadlock"; a watchdog kill is then reported through the
 	// harness's own stall detector, never through this flag alone.
 	NeedInstr bool // needs the instrumented unix_volume.go
+	// RaceDeciding: path substrings of the sources whose race-freedom the
+	// property's statement covers. A race-detector report with an access
+	// stack containing one of them is a violation "race:<site key>"; all
+	// other reports stay counted, not judged.
+	RaceDeciding []string
 }
 
 func main() {
@@ -470,6 +475,10 @@ func runChild(p propSpec, pk pkgSpec, tier string, seed uint64, k, n int, outDir
 				for s, v := range sites {
 					oc.raceSites[s] += v
 				}
+				for _, v := range decidingRaces(string(b), p.RaceDeciding) {
+					v.Pkg, v.Run = pk.Dir, runRe
+					oc.crashes = append(oc.crashes, v)
+				}
 			}
 		}
 		// collect results
@@ -631,6 +640,47 @@ func parseRaces(s string) (int, map[string]int) {
 		sites[strings.Join(tops, " <-> ")]++
 	}
 	return n, sites
+}
+
+// decidingRaces turns the race reports of one log whose two access stacks
+// (not the "Goroutine N created at" stacks) contain a frame in one of the
+// deciding sources into violations, keyed like parseRaces keys its sites. A
+// report that only involves harness files (zz_verif_*) never matches, because
+// the deciding substrings name repository sources.
+func decidingRaces(s string, deciding []string) []violation {
+	if len(deciding) == 0 {
+		return nil
+	}
+	var out []violation
+	for _, b := range strings.Split(s, "WARNING: DATA RACE")[1:] {
+		if i := strings.Index(b, "\n=================="); i >= 0 {
+			b = b[:i]
+		}
+		access := b
+		if i := strings.Index(access, "\nGoroutine "); i >= 0 {
+			access = access[:i]
+		}
+		hit := false
+		for _, l := range strings.Split(access, "\n") {
+			l = strings.TrimSpace(l)
+			if !strings.HasPrefix(l, "/") || strings.Contains(l, "zz_verif_") {
+				continue // not a source position, or a harness frame
+			}
+			for _, d := range deciding {
+				if strings.Contains(l, d) {
+					hit = true
+				}
+			}
+		}
+		if !hit {
+			continue
+		}
+		_, sites := parseRaces("WARNING: DATA RACE" + b)
+		for site := range sites {
+			out = append(out, violation{Sig: "race:" + site, Detail: "WARNING: DATA RACE" + b, Stream: "race-detector", Case: -1})
+		}
+	}
+	return out
 }
 
 // ---------------------------------------------------------------- run
